@@ -12,7 +12,8 @@ LEVEL = ("Static structural conditions of the microcanonical sampler: every writ
          "branch forces the momentum to be resampled (R3); the number of base steps depends on exactly subsample_frequency, the decoherence length and the "
          "step size, is rounded and floored at 1; in the dynamic step-size retry the factor is halved exactly where the remaining-steps stack is pushed and "
          "doubled exactly where it is popped, the pop sits in an unwinding loop that is only left with remaining > 0 or an empty stack, and each "
-         "successful step decrements the remaining count once (R4). The ESH closed form and the kinetic-energy change as numbers are not decided.")
+         "successful step decrements the remaining count once (R4). The ESH closed form and the kinetic-energy change as numbers are not decided."
+         " Added: the stack of pending step-size levels is per draw (R4); switch_draw is computed from trajectory_switch_fraction and num_tune only (R5).")
 EXPLANATION = ("Effect / dominance analysis on the MIR of the Hamiltonian methods and of MclmcChain::{draw, mclmc_kernel}; natural-loop structure of the retry "
                "bookkeeping; symbolic evaluation (rules/kernel.py) of the final loops of CpuMath::esh_momentum_update.")
 TRUSTED = ["rustc nightly MIR/HIR", "nutsfacts extractor", "rules/c18.py", "Math::array_normalize divides by the Euclidean norm (decided for CpuMath by R1's symbolic check)"]
